@@ -82,7 +82,8 @@ EvMsgs(a) == IF EvOk(a) THEN [msgs EXCEPT ![a.id].ev[a.v] = a.e] ELSE msgs
 PadMsgs(a) == IF EvOk(a) /\ ~msgs[a.id].pad THEN [msgs EXCEPT ![a.id].pad = TRUE] ELSE msgs
 ErrMsgs(a) == IF EvOk(a) /\ ~msgs[a.id].pad /\ ~msgs[a.id].err THEN [msgs EXCEPT ![a.id].err = TRUE] ELSE msgs
 
-TrSign == Step("Sign", "Sign.result", SignMsgs, SignOk)
+TrSign == Step("Sign", "Sign.result", SignMsgs, SignOk) /\ LET e == Trace[l] IN
+  (e.res = "ok" => Report("C06.SignedWithRegisteredKey", e.regNow))
 \* an accepted submission is what the tally counts for that validator from then on (its latest submission)
 TrEstimate == Step("Estimate", "Estimate.result", EstMsgs, EstOk) /\ LET e == Trace[l] IN
   (e.res = "ok" => Report("C04.EstimateRecorded", e.args.id \in DOMAIN msgs' /\ msgs'[e.args.id].ests[e.args.v] = e.args.x))
